@@ -66,6 +66,8 @@ class ModbusDevice:
 
     # register helpers
     def is_refused(self, start, n):
+        if (start, n) in getattr(self, 'refused_requests', ()):
+            return True       # this inverter refuses exactly this block read (whatever it does with other reads of the range)
         if getattr(self, 'refuse_mode', 'touch') == 'cover':
             # another kind of inverter: it refuses the BLOCK reads that span an optional range it does not serve as a block,
             # short reads inside the range are answered (e.g. a firmware limit on what one request may span)
